@@ -5,13 +5,17 @@ import BlockCiphers.Proofs.AesSboxTable
 import BlockCiphers.Proofs.AesFixslice
 import BlockCiphers.Proofs.GenFuncsFs64
 import BlockCiphers.Proofs.GenFuncsFs32
+import BlockCiphers.Proofs.AesArmv8
+import BlockCiphers.Proofs.AesArmv8Bytes
+import BlockCiphers.Proofs.AesArmv8Par
+import BlockCiphers.Proofs.AesArmv8GenTables
 /-
 C02 — AES types compute FIPS-197 under every backend and key size
 GENERATED statement file (tools/gen_thm.py): every theorem below restates, verbatim, a theorem of a Proofs/ module
 and is proved by applying it.  ONLY property theorems and non-vacuity examples live in Thm/.
 AES-NI model = FIPS-197 (Spec/Aes.lean: computed S-box, MixColumns as the matrix product, KeyExpansion) for the three key sizes, all keys,
 all blocks, both directions, incl. the 9-lane parallel form; fixslice64 and fixslice32, normal and compact = FIPS-197 likewise (soft_conforms_N).
-ARMv8: not modelled (no aarch64 execution environment; DESIGN §4.4).
+ARMv8 Cryptography Extensions backend (Impl/AesArmv8.lean; its source text is executed by the harness over software intrinsics): = FIPS-197 for the three key sizes (armv8_*).
 -/
 
 namespace BC.GenFuncs.AesFs64
@@ -512,3 +516,162 @@ theorem C02.soft_conforms_256 (kb : Bytes) (h : kb.length = 32) (x : BitVec 128)
     (AesFs32.single (AesFs32.aes256_encrypt_compact (AesFs32.rkFn (AesFs32.aes256_key_schedule_compact (packBE 32 kb)))) x = Spec.Aes.encrypt kb x ∧ AesFs32.single (AesFs32.aes256_decrypt_compact (AesFs32.rkFn (AesFs32.aes256_key_schedule_compact (packBE 32 kb)))) x = Spec.Aes.decrypt kb x) :=
   _root_.BC.AesSoft.soft_conforms_256 kb h x
 end BC.AesSoft
+
+namespace BC.AesArmv8
+open BC BC.X86 BC.Arm BC.Spec.Aes BC.AesNi
+theorem C02.armv8_encrypt128_eq_spec (key : BitVec 128) (b : BitVec 128) :
+    encrypt128 key b = Spec.Aes.encrypt (unpackBE 16 key) b :=
+  _root_.BC.AesArmv8.encrypt128_eq_spec key b
+end BC.AesArmv8
+
+namespace BC.AesArmv8
+open BC BC.X86 BC.Arm BC.Spec.Aes BC.AesNi
+theorem C02.armv8_decrypt128_eq_spec (key : BitVec 128) (b : BitVec 128) :
+    decrypt128 key b = Spec.Aes.decrypt (unpackBE 16 key) b :=
+  _root_.BC.AesArmv8.decrypt128_eq_spec key b
+end BC.AesArmv8
+
+namespace BC.AesArmv8
+open BC BC.X86 BC.Arm BC.Spec.Aes BC.AesNi
+theorem C02.armv8_encrypt192_eq_spec (key : BitVec 192) (b : BitVec 128) :
+    encrypt192 key b = Spec.Aes.encrypt (unpackBE 24 key) b :=
+  _root_.BC.AesArmv8.encrypt192_eq_spec key b
+end BC.AesArmv8
+
+namespace BC.AesArmv8
+open BC BC.X86 BC.Arm BC.Spec.Aes BC.AesNi
+theorem C02.armv8_decrypt192_eq_spec (key : BitVec 192) (b : BitVec 128) :
+    decrypt192 key b = Spec.Aes.decrypt (unpackBE 24 key) b :=
+  _root_.BC.AesArmv8.decrypt192_eq_spec key b
+end BC.AesArmv8
+
+namespace BC.AesArmv8
+open BC BC.X86 BC.Arm BC.Spec.Aes BC.AesNi
+theorem C02.armv8_encrypt256_eq_spec (key : BitVec 256) (b : BitVec 128) :
+    encrypt256 key b = Spec.Aes.encrypt (unpackBE 32 key) b :=
+  _root_.BC.AesArmv8.encrypt256_eq_spec key b
+end BC.AesArmv8
+
+namespace BC.AesArmv8
+open BC BC.X86 BC.Arm BC.Spec.Aes BC.AesNi
+theorem C02.armv8_decrypt256_eq_spec (key : BitVec 256) (b : BitVec 128) :
+    decrypt256 key b = Spec.Aes.decrypt (unpackBE 32 key) b :=
+  _root_.BC.AesArmv8.decrypt256_eq_spec key b
+end BC.AesArmv8
+
+namespace BC.AesArmv8
+open BC BC.X86 BC.Arm BC.Spec.Aes BC.AesNi
+/-- `expand_key` = FIPS-197 KeyExpansion: register `r` of the result, read back from memory, is round key `r` -/
+theorem C02.armv8_expand_key128_eq_keyExpansion (key : BitVec 128) (r : Nat) (hr : r ≤ 10) :
+    vst1q_u8 ((expand_key (unpackBE 16 key) 11).getD r 0#128) =
+      roundKey (keyExpansion 4 10 (keyWords (unpackBE 16 key))) r :=
+  _root_.BC.AesArmv8.expand_key128_eq_keyExpansion key r hr
+end BC.AesArmv8
+
+namespace BC.AesArmv8
+open BC BC.X86 BC.Arm BC.Spec.Aes BC.AesNi
+theorem C02.armv8_expand_key192_eq_keyExpansion (key : BitVec 192) (r : Nat) (hr : r ≤ 12) :
+    vst1q_u8 ((expand_key (unpackBE 24 key) 13).getD r 0#128) =
+      roundKey (keyExpansion 6 12 (keyWords (unpackBE 24 key))) r :=
+  _root_.BC.AesArmv8.expand_key192_eq_keyExpansion key r hr
+end BC.AesArmv8
+
+namespace BC.AesArmv8
+open BC BC.X86 BC.Arm BC.Spec.Aes BC.AesNi
+theorem C02.armv8_expand_key256_eq_keyExpansion (key : BitVec 256) (r : Nat) (hr : r ≤ 14) :
+    vst1q_u8 ((expand_key (unpackBE 32 key) 15).getD r 0#128) =
+      roundKey (keyExpansion 8 14 (keyWords (unpackBE 32 key))) r :=
+  _root_.BC.AesArmv8.expand_key256_eq_keyExpansion key r hr
+end BC.AesArmv8
+
+namespace BC.AesArmv8
+open BC BC.X86 BC.Spec.Aes BC.AesNi
+open BC.Models.Aes BC.Models.AesArmv8
+/-- `new_from_slice` accepts exactly the key length of the family (C11 for the ARMv8 AES types) -/
+theorem C02.armv8_newEnc_isSome (f : Fam) (k : Bytes) : (Models.AesArmv8.newEnc f k).isSome ↔ k.length = f.keyLen :=
+  _root_.BC.AesArmv8.newEnc_isSome f k
+end BC.AesArmv8
+
+namespace BC.AesArmv8
+open BC BC.X86 BC.Spec.Aes BC.AesNi
+open BC.Models.Aes BC.Models.AesArmv8
+/-- what an accepted key produces, per family: the combined type computes FIPS-197 in both directions -/
+theorem C02.armv8_newCombined_spec (f : Fam) (k : Bytes) (h : k.length = f.keyLen) :
+    ∃ c, Models.AesArmv8.newCombined f k = some c ∧
+      (∀ b, c.encrypt_block b = Spec.Aes.encrypt k b) ∧ (∀ b, c.decrypt_block b = Spec.Aes.decrypt k b) :=
+  _root_.BC.AesArmv8.newCombined_spec f k h
+end BC.AesArmv8
+
+namespace BC.AesArmv8
+open BC BC.X86 BC.Spec.Aes BC.AesNi
+/-- the same in the shape of `Proofs/AesNiBytes.lean` (fixed-size key packed from the byte string) -/
+theorem C02.armv8_encrypt128_bytes (key : Bytes) (h : key.length = 16) (b : BitVec 128) :
+    encrypt128 (packBE 16 key) b = Spec.Aes.encrypt key b :=
+  _root_.BC.AesArmv8.encrypt128_bytes key h b
+end BC.AesArmv8
+
+namespace BC.AesArmv8
+open BC BC.X86 BC.Spec.Aes BC.AesNi
+theorem C02.armv8_decrypt128_bytes (key : Bytes) (h : key.length = 16) (b : BitVec 128) :
+    decrypt128 (packBE 16 key) b = Spec.Aes.decrypt key b :=
+  _root_.BC.AesArmv8.decrypt128_bytes key h b
+end BC.AesArmv8
+
+namespace BC.AesArmv8
+open BC BC.X86 BC.Spec.Aes BC.AesNi
+theorem C02.armv8_encrypt192_bytes (key : Bytes) (h : key.length = 24) (b : BitVec 128) :
+    encrypt192 (packBE 24 key) b = Spec.Aes.encrypt key b :=
+  _root_.BC.AesArmv8.encrypt192_bytes key h b
+end BC.AesArmv8
+
+namespace BC.AesArmv8
+open BC BC.X86 BC.Spec.Aes BC.AesNi
+theorem C02.armv8_decrypt192_bytes (key : Bytes) (h : key.length = 24) (b : BitVec 128) :
+    decrypt192 (packBE 24 key) b = Spec.Aes.decrypt key b :=
+  _root_.BC.AesArmv8.decrypt192_bytes key h b
+end BC.AesArmv8
+
+namespace BC.AesArmv8
+open BC BC.X86 BC.Spec.Aes BC.AesNi
+theorem C02.armv8_encrypt256_bytes (key : Bytes) (h : key.length = 32) (b : BitVec 128) :
+    encrypt256 (packBE 32 key) b = Spec.Aes.encrypt key b :=
+  _root_.BC.AesArmv8.encrypt256_bytes key h b
+end BC.AesArmv8
+
+namespace BC.AesArmv8
+open BC BC.X86 BC.Spec.Aes BC.AesNi
+theorem C02.armv8_decrypt256_bytes (key : Bytes) (h : key.length = 32) (b : BitVec 128) :
+    decrypt256 (packBE 32 key) b = Spec.Aes.decrypt key b :=
+  _root_.BC.AesArmv8.decrypt256_bytes key h b
+end BC.AesArmv8
+
+namespace BC.AesArmv8
+open BC BC.X86 BC.Arm
+/-- `encrypt_par` = lane-wise `encrypt` whenever the key array has one of the three legal sizes -/
+theorem C02.armv8_encrypt_par_eq_map (keys bs : List (BitVec 128)) (h : keys.length = 11 ∨ keys.length = 13 ∨ keys.length = 15) :
+    encrypt_par keys bs = bs.map (encrypt keys) :=
+  _root_.BC.AesArmv8.encrypt_par_eq_map keys bs h
+end BC.AesArmv8
+
+namespace BC.AesArmv8
+open BC BC.X86 BC.Arm
+/-- `decrypt_par` = lane-wise `decrypt` whenever the key array has one of the three legal sizes -/
+theorem C02.armv8_decrypt_par_eq_map (keys bs : List (BitVec 128)) (h : keys.length = 11 ∨ keys.length = 13 ∨ keys.length = 15) :
+    decrypt_par keys bs = bs.map (decrypt keys) :=
+  _root_.BC.AesArmv8.decrypt_par_eq_map keys bs h
+end BC.AesArmv8
+
+namespace BC.GenTables
+open BC.Gen
+/-- `ROUND_CONSTS` of the repository = `ROUND_CONSTS` of `Impl/AesArmv8.lean` -/
+theorem C02.aes_armv8_ROUND_CONSTS_eq : aes_ROUND_CONSTS.toList = BC.AesArmv8.ROUND_CONSTS.map BitVec.toNat :=
+  _root_.BC.GenTables.aes_armv8_ROUND_CONSTS_eq
+end BC.GenTables
+
+namespace BC.GenTables
+open BC.Gen
+/-- `BLOCK_WORDS = 4` (`column_reg`: four 32-bit columns per register, `expand_columns`: `n * 4` columns) and
+`WORD_SIZE = 4` (`key_columns`: 4-byte chunks, `nk = key.length / 4`) -/
+theorem C02.aes_armv8_word_consts : aes_BLOCK_WORDS = 4 ∧ aes_WORD_SIZE = 4 :=
+  _root_.BC.GenTables.aes_armv8_word_consts
+end BC.GenTables
